@@ -350,7 +350,8 @@ def rule_prune(chk, prog):
                  "points and into the edge's first/last segment, the segment count drops by one, both ends get their bend constraint "
                  "rebuilt, and EVERY StraightConstraint of both old segments is offered to transferStraightConstraint of the merged "
                  "segment exactly once (a constraint that is not carried over leaves the merged segment unguarded against that node "
-                 "until the next scan)", floor=6)
+                 "until the next scan); on a CLOSED path (cluster boundary) pruning the anchor point or another point leaves a closed path "
+                 "through all remaining points", floor=8)
     fn = prog.fn("topology::EdgePoint::prune")
     SC = "topology::StraightConstraint *"
     n_eval = 0
@@ -414,6 +415,50 @@ def rule_prune(chk, prog):
                     break
             if bad is None and any(recv is not s for recv, a in rec):
                 bad = "a StraightConstraint is transferred to a segment other than the merged one"
+        (r.bad if bad else r.ok)(what, fn.where(), bad or "")
+    # closed paths (cluster boundaries): the list is anchored at one point; pruning that very point must keep the cycle closed
+    for victim in (0, 2):
+        N = default_obj(prog, "topology::Node", {"id": 1})
+        e = default_obj(prog, "topology::Edge", {"nSegments": 4})
+        pts = [default_obj(prog, "topology::EdgePoint", {"node": N, "rectIntersect": k, "_tag": k}) for k in range(4)]
+        segs = [default_obj(prog, "topology::Segment", {"edge": e, "start": pts[k], "end": pts[(k + 1) % 4], "straightConstraints": Vec([], SC), "_tag": k})
+                for k in range(4)]
+        for k in range(4):
+            pts[k].f["outSegment"] = segs[k]
+            pts[k].f["inSegment"] = segs[(k - 1) % 4]
+        e.f["firstSegment"], e.f["lastSegment"] = segs[0], segs[3]
+        it = Interp(prog, Oracle([]), hooks=dict(_LOG_HOOKS))
+        it.vhooks["topology::Segment::transferStraightConstraint"] = lambda it_, recv, args: None
+        it.vhooks["topology::EdgePoint::createBendConstraint"] = lambda it_, recv, args: True
+        it.vhooks["topology::Segment::deleteStraightConstraints"] = lambda it_, recv, args: None
+        it.vhooks["topology::EdgePoint::deleteBendConstraint"] = lambda it_, recv, args: None
+        what = "closed path P0 -> P1 -> P2 -> P3 -> P0 anchored at P0, pruning %s" % ("the anchor P0" if victim == 0 else "P2")
+        r.count()
+        try:
+            it.call(fn, pts[victim], None, None, arg_values=[0])
+        except Unsupported as ex:
+            raise AnalysisBroken("EdgePoint::prune outside the interpreter subset (cycle): %s" % ex)
+        except AssertFail as ex:
+            r.bad(what, fn.where(), "assertion fails: %s" % ex)
+            continue
+        n_eval += 1
+        bad = None
+        first, last = e.f.get("firstSegment"), e.f.get("lastSegment")
+        if not isinstance(first, Obj) or not isinstance(last, Obj):
+            bad = "firstSegment / lastSegment lost"
+        elif first.f.get("start") is not last.f.get("end"):
+            bad = "the path is no longer closed: it starts at P%s and ends at P%s" % (first.f["start"].f.get("_tag"), last.f["end"].f.get("_tag"))
+        else:
+            seen, cur = [], first
+            while cur is not None and not any(cur is x for x in seen) and len(seen) < 8:
+                seen.append(cur)
+                if cur is last:
+                    break
+                cur = cur.f["end"].f.get("outSegment")
+            if len(seen) != 3 or seen[-1] is not last:
+                bad = "walking from firstSegment reaches lastSegment after %d segments, expected all 3 remaining ones: part of the boundary is unreachable" % len(seen)
+            elif any(x is pts[victim] for sg in seen for x in (sg.f["start"], sg.f["end"])):
+                bad = "the pruned point is still on the path"
         (r.bad if bad else r.ok)(what, fn.where(), bad or "")
     r.evaluations = n_eval
 
@@ -656,6 +701,33 @@ def rule_bend_tie(chk, prog):
                                                                   else "the bend whose constraint was satisfied is not the one removed")
 
 
+def rule_hidden_segments(chk, prog):
+    """Which (node, open segment) pairs the scan may leave without a StraightConstraint."""
+    from ..rules.guards import path_condition, atoms, entails
+    r = chk.rule("HIDDEN-SEGMENT-SKIP", "NodeEvent::createStraightConstraints skips an open segment (creates no StraightConstraint between it and the "
+                 "node) only when the segment is attached to the node itself, or when it lies beyond the centre of the node's left / right "
+                 "scan-line neighbour, inside that neighbour's extent, AND is not attached to that neighbour -- a segment that ends in the "
+                 "neighbour's centre is always `behind` it on the scan lines through the neighbour, but is free to rotate out of it and "
+                 "through the node", floor=2)
+    fn = prog.fn("topology::NodeEvent::createStraightConstraints")
+    conts = [n for n in fn.nodes() if n.get("k") == "ContinueStmt"]
+    if len(conts) < 2:
+        raise AnalysisBroken("createStraightConstraints: the two skip sites were not found")
+    A = lambda s_: ("atom", s_)
+    own = ("or", ("and", A("(s.start.node.id == node.id)"), A("(s.start.rectIntersect == topology::EdgePoint::CENTRE)")),
+           ("and", A("(s.end.node.id == node.id)"), A("(s.end.rectIntersect == topology::EdgePoint::CENTRE)")))
+    hidden = ("or", ("and", A("(p < leftLimit)"), ("not", A("s.connectedToNode(leftNeighbour)"))),
+              ("and", A("(p > rightLimit)"), ("not", A("s.connectedToNode(rightNeighbour)"))))
+    want = ("or", own, hidden)
+    for c in conts:
+        r.count()
+        pc = path_condition(fn, c, inline=False)
+        ok = entails(pc, want)
+        (r.ok if ok else r.bad)("skip at line %s" % c.get("l"), fn.loc(c), "" if ok else
+                                "a segment is skipped under %s, which does not require that the segment is NOT attached to the neighbour it is "
+                                "supposed to be hidden behind" % show(pc)[:260])
+
+
 def run(chk):
     prog = chk.load()
     chk.guard(rule_alpha, chk, prog)
@@ -666,6 +738,7 @@ def run(chk):
     chk.guard(rule_node_identity, chk, prog)
     chk.guard(rule_resize_copyback, chk, prog)
     chk.guard(rule_bend_tie, chk, prog)
+    chk.guard(rule_hidden_segments, chk, prog)
     from ..rules import mirrors
     r_m = chk.rule("MIRROR", "the x / y and low / high twins of libtopology's edge points, obstacles and segments stay mirror images (tables/mirrors.json)", floor=1)
     mirrors.check(r_m, prog, ["topology::EdgePoint::", "topology::LayoutObstacle::", "topology::LayoutEdgeSegment::"])
